@@ -404,6 +404,60 @@ fn judge_homonyms(kind: &str, guards: &[Option<E>], t: &[&str], acc: &mut Acc) {
     }
 }
 
+/// A guarded field whose type typeshare cannot express (or which is flattened): when the target list rejects the
+/// field it is as if it were not written at all - nothing about it is validated; when the list keeps it, the run
+/// reports the unsupported construct.
+fn judge_unsupported_member(exprs: &[E], t: &[&str], shape_of_member: &str, acc: &mut Acc) {
+    let g = attrs(exprs);
+    let member = match shape_of_member {
+        "u64-field" => format!("{g} pub guarded: u64,"),
+        "tuple-field" => format!("{g} pub guarded: Vec<(u32, String)>,"),
+        _ => format!("{g} #[serde(flatten)] pub guarded: Control,"),
+    };
+    let src = format!("#[typeshare]\npub struct Control {{ pub x: u32 }}\n#[typeshare]\npub struct HU {{ pub keep: u32, {member} pub tail: u32 }}\n");
+    let (k, shape) = keep(exprs, t);
+    let cfg = Cfg { target_os: t.iter().map(|s| s.to_string()).collect(), ..Cfg::plain() };
+    acc.parses += 1;
+    acc.evals += 1;
+    if !t.is_empty() {
+        acc.nontrivial += 1;
+    }
+    // observed: Some(true) = the field was looked at (an error about it), Some(false) = dropped silently
+    let observed: Result<bool, String> = match pipeline::parse_only(&[SrcFile::single(src.clone())], &cfg) {
+        Ok(m) => match m.values().next() {
+            Some(pd) if pd.errors.is_empty() => match pd.structs.iter().find(|s| s.id.original == "HU") {
+                Some(s) => {
+                    let names: Vec<&str> = s.fields.iter().map(|f| f.id.original.as_str()).collect();
+                    if names == ["keep", "tail"] {
+                        Ok(false)
+                    } else {
+                        Err(format!("unexpected members {names:?}"))
+                    }
+                }
+                None => Err("struct HU missing without an error".into()),
+            },
+            Some(_) => Ok(true),
+            None => Err("nothing parsed".into()),
+        },
+        Err(o) => Err(format!("failure: {}", o.kind())),
+    };
+    match observed {
+        Ok(o) if o == k => {
+            if k {
+                acc.kept += 1
+            } else {
+                acc.dropped += 1
+            }
+        }
+        other => {
+            acc.vios.add(Violation {
+                sig: format!("C13|guarded-member-that-cannot-be-generated|member={shape_of_member}|expected={}|observed={}|{shape}", if k { "kept (reported as unsupported)" } else { "dropped (not looked at)" }, match &other { Ok(true) => "reported".to_string(), Ok(false) => "dropped".to_string(), Err(e) => e.split(':').next().unwrap_or("").to_string() }),
+                detail: json!({"cfg": g, "target_os": t, "expected_kept": k, "observed": format!("{other:?}"), "source": src}),
+            });
+        }
+    }
+}
+
 fn merge(rep: &mut Report, name: &str, accs: Vec<Acc>, stats: crate::explore::ExploreStats, extra: serde_json::Value) {
     let mut inputs = 0u64;
     let mut nontrivial = 0u64;
@@ -567,6 +621,30 @@ pub fn run(args: &[String]) -> i32 {
             u64::MAX,
         );
         merge(&mut rep, "one_definition_per_os", accs, stats, json!({"kinds": HKINDS, "guards": "two, each a leaf or not(leaf) over 5 leaves; optionally a third item without guard", "target_lists": 16, "observed": "which of the same-named definitions are in the parsed and reconciled data, told apart by their members"}));
+    }
+    // 1e. a guarded field that could not be generated anyway (u64, a tuple, flatten): dropped without being looked at
+    {
+        let lists = &lists4;
+        const MEMBERS: [&str; 3] = ["u64-field", "tuple-field", "flattened-field"];
+        let (accs, stats) = explore(
+            |ch| {
+                ch.choose("member", MEMBERS.len());
+            },
+            |ch, acc: &mut Acc| {
+                let member = MEMBERS[ch.choose("member", MEMBERS.len())];
+                let e = gen_expr(ch, 1, &LEAVES_FULL);
+                let ti = ch.choose("targets", lists.len());
+                if ti == 0 {
+                    acc.inputs += 1;
+                }
+                judge_unsupported_member(&[e], &lists[ti], member, acc);
+            },
+            Mode::Product,
+            3,
+            report::threads(),
+            u64::MAX,
+        );
+        merge(&mut rep, "guarded_member_that_cannot_be_generated", accs, stats, json!({"members": MEMBERS, "expr_depth": 2, "leaves": 5, "target_lists": 16}));
     }
     // 2. two separate cfg attributes, each depth ≤ 2 (70 × 70), and three of depth 1 leaves
     {
